@@ -12,3 +12,58 @@ def install(eng):
         ensures=["result == Stale(target, fs, spec_hashes)"],   # C01, taken from the statement
         loops={1: Loop(inv=["all(fs_exists(fs, p) for p in seen1)"], seen="seen1")},
         uses=["tree", "fs"], serves=["C01", "C05", "C06", "C18"])
+
+    # ------------------------------------------------------------------ replay (CPython, real function)
+    def replay_should_run(eng, ob, model, seed):
+        """model-guided enumerative concretiser: tree shapes and the spec-change flag come from the
+        model; file-system states are enumerated over a small pool (bounded, replay only)."""
+        import itertools
+        import gwf.scheduling as S
+        from gwf.core import Target
+        from replay.common import tree_to_py, model_tree
+        tsym = eng.entry_state.env["target"].z
+        cnt = itertools.count()
+        outs = tree_to_py(eng, model_tree(eng, model, tsym, "outputs"), cnt, "o")
+        ins = tree_to_py(eng, model_tree(eng, model, tsym, "inputs"), cnt, "i")
+        changed = bool(model.eval(eng.vc.f_changed(eng.entry_state.env["spec_hashes"].z, tsym), model_completion=True))
+        tgt = Target(name="T", inputs=ins, outputs=outs, options={}, working_dir="/w")
+        O, I = sorted(set(tgt.flattened_outputs())), sorted(set(tgt.flattened_inputs()))
+        tried = 0
+        for ex in itertools.product([True, False], repeat=len(O)):
+            for mt in itertools.product([1.0, 2.0], repeat=len(O) + len(I)):
+                tried += 1
+                if tried > 4096:
+                    break
+                exists = dict(zip(O, ex))
+                exists.update({p: True for p in I})   # precondition: inputs exist
+                mtime = dict(zip(O + I, mt))
+
+                class FS:
+                    def exists(self, p):
+                        return exists[p]
+
+                    def changed_at(self, p):
+                        if not exists[p]:
+                            raise FileNotFoundError(p)
+                        return mtime[p]
+
+                class H:
+                    def has_changed(self, t):
+                        return "h" if changed else None
+
+                want = (changed or not O or any(not exists[o] for o in O)
+                        or any(mtime[i] > mtime[o] for i in I for o in O))
+                try:
+                    got = S.should_run(tgt, FS(), H())
+                except Exception as e:  # an escaping exception also violates the contract
+                    got = f"raised {type(e).__name__}"
+                if got != want:
+                    return {"failed_on_real_code": True, "witness_class": "outputs-without-files" if not O else "other",
+                            "input": {"inputs": ins, "outputs": outs, "exists": {k: v for k, v in exists.items()},
+                                      "mtime": mtime, "spec_changed": changed},
+                            "observed": got, "required": want, "candidates_tried": tried,
+                            "call": "gwf.scheduling.should_run(Target(inputs, outputs), fs, spec_hashes)"}
+        return {"failed_on_real_code": False, "candidates_tried": tried,
+                "note": "no candidate from the model's tree shapes failed on the real function"}
+
+    eng.replayers["gwf.scheduling:should_run"] = replay_should_run
